@@ -170,6 +170,39 @@ class Server(object):
         self.tr = _TwDgram()
         self.obj.transport = self.tr
 
+    def dgram_burst(self, items):
+        """datagram front-ends: several datagrams [(peer, bytes)] arrive before the server gets to run
+        (one event-loop turn on asyncio); -> [(destination address, bytes written)]"""
+        out = []
+        if self.front == 'aio-udp':
+            n0 = len(self.tr.writes)
+            with self.loop:
+                for peer, data in items:
+                    self.proto.datagram_received(bytes(data), peer)
+                self.loop.run_until_idle()
+            addrs = getattr(self.tr, 'addrs', [])
+            out = list(zip(addrs[len(addrs) - (len(self.tr.writes) - n0):], self.tr.writes[n0:]))
+            del self.tr.writes[:]
+            self.tr.addrs = []
+        elif self.front == 'tw-udp':
+            for peer, data in items:
+                n0 = len(self.tr.writes)
+                try:
+                    self.obj.datagramReceived(bytes(data), peer)
+                except BaseException as e:   # noqa
+                    self.reactor_contained = getattr(self, 'reactor_contained', []) + [e]
+                out.extend(zip(self.tr.addrs[n0:], self.tr.writes[n0:]))
+        else:
+            from pymodbus.server.sync import ModbusDisconnectedRequestHandler as H
+            for peer, data in items:
+                sock = _Sock()
+                try:
+                    H((bytes(data), sock), peer, self.obj)
+                except BaseException as e:   # noqa
+                    self.escaped.append(('sync-udp.handle', e))
+                out.extend(zip(getattr(sock, 'addrs', []), sock.writes))
+        return out
+
     def shutdown(self):
         """cancel handler tasks and close the loop so that nothing is finalised at interpreter exit"""
         loop = getattr(self, 'loop', None)
